@@ -20,7 +20,7 @@ type c17repl struct {
 	present   bool
 	pingOk    bool
 	offline   bool
-	lag       int // -1 nil lag, -2 nil slave state
+	lag       int // milliseconds (the code's lag is a float of seconds); -1 nil lag, -2 nil slave state
 	broken    bool
 	resetup   int // 0 absent(err) 1 status=true 2 stale(before startup) 3 fresh negative 4 startup query fails
 	offFault  bool
@@ -122,7 +122,7 @@ func c17run(t *testing.T, out *verifh.Out, scns []c17scn, dir string) {
 				if r.lag != -2 {
 					ss := &nodestate.SlaveState{MasterHost: "m", ReplicationState: mysql.ReplicationRunning}
 					if r.lag >= 0 {
-						l := float64(r.lag)
+						l := float64(r.lag) / 1000
 						ss.ReplicationLag = &l
 					}
 					if r.broken {
@@ -153,6 +153,7 @@ func c17run(t *testing.T, out *verifh.Out, scns []c17scn, dir string) {
 					wd.AddFault(h, "set_offline", 0, "err:1105")
 				}
 			}
+			vAddSourceInfo(cs) // as in a probed view
 			cfgj := map[string]any{"enable_lag": 100, "disable_lag": 30, "pct": s.pct, "sep": s.sep, "interval": 900}
 			if s.perHost {
 				// (a) the inner function host by host, in sorted order, with one shared pending map
@@ -237,7 +238,7 @@ func TestVerifC17(t *testing.T) {
 	rnd := verifh.Rand()
 	dir := t.TempDir()
 	pcts := []int{0, 1, 32, 33, 34, 49, 50, 51, 66, 67, 99, 100, -5, 150}
-	lags := []int{-2, -1, 0, 30, 31, 100, 101, 500}
+	lags := []int{-2, -1, 0, 30000, 30250, 30700, 31000, 99900, 100000, 100500, 100999, 101000, 500000}
 	var scns []c17scn
 	gen := func(r *rand.Rand, perHost bool) c17scn {
 		s := c17scn{pct: pcts[r.Intn(len(pcts))], sep: []string{"-", "-", "-", "", "z", "a-"}[r.Intn(6)], masterRO: r.Intn(6) == 0,
@@ -249,11 +250,11 @@ func TestVerifC17(t *testing.T) {
 				rp.broken = r.Intn(5) == 0
 			}
 			if r.Intn(3) == 0 { // bias towards "everybody lags" so that the cap matters
-				rp.lag = 500
+				rp.lag = []int{500000, 100400}[r.Intn(2)]
 				rp.offline = false
 			} else if r.Intn(4) == 0 { // … and towards "offline and caught up again" so that the way back is exercised
 				rp.offline = true
-				rp.lag = []int{0, 29, 30, 31}[r.Intn(4)]
+				rp.lag = []int{0, 29000, 29999, 30000, 30001, 30600, 31000}[r.Intn(7)]
 			}
 			s.repl = append(s.repl, rp)
 		}
